@@ -348,6 +348,35 @@ static int kindOfType(uint32_t t)
 
 #include "gen_dispatch.inc"  // generated by translator/cxx2coq.py: bool accDispatch(cls, method, mem, arg, out)
 
+static std::string obsPacket(const Packet& p);
+// ---- static-initialisation probe: the harness object file is linked BEFORE the library's, so this constructor runs before the
+// library's own translation units are initialised. The all-static TECMP decoder must already behave as it does later.
+struct InitProbe
+{
+    std::string transcript;
+    InitProbe()
+    {
+        static const uint8_t fa[] = {0x00, 0x07, 0x00, 0x00, 0x03, 0x01, 0x00, 0x00, 0x00, 0x00, 0x00, 0x00, 0x11, 0x22, 0x33, 0x44, 0x01, 0x02, 0x03, 0x04, 0x05, 0x06, 0x07, 0x08, 0x00, 0x14, 0x00, 0x00, 0x01, 0x02, 0x03, 0x04, 0x05, 0x06, 0x07, 0x08, 0x09, 0x0a, 0x0b, 0x0c, 0x0d, 0x0e, 0x0f, 0x10, 0x11, 0x12, 0x13, 0x14};
+        static const uint8_t fb[] = {0x00, 0x09, 0x00, 0x00, 0x03, 0x03, 0x00, 0x02, 0x00, 0x00, 0x00, 0x00, 0x00, 0x00, 0x00, 0x05, 0x00, 0x00, 0x00, 0x00, 0x00, 0x00, 0x00, 0x4d, 0x00, 0x0c, 0x00, 0x00, 0x00, 0x00, 0x01, 0x23, 0x04, 0x09, 0x08, 0x07, 0x06, 0x00, 0x00, 0x00};
+        static const uint8_t fc[] = {0x00, 0x07, 0x00, 0x00, 0x03, 0x01, 0x00, 0x00, 0x00, 0x00, 0x00, 0x00, 0x00, 0x00, 0x00, 0x01, 0x00, 0x00, 0x00, 0x00, 0x00, 0x00, 0x00, 0x02, 0x00, 0x0a, 0x00, 0x00, 0x00, 0x00, 0x00, 0x00, 0x00, 0x00, 0x00, 0x00, 0x00, 0x00};
+        const std::pair<const uint8_t*, size_t> frames[] = {{fa, sizeof(fa)}, {fb, sizeof(fb)}, {fc, sizeof(fc)}};
+        for (auto& f : frames)
+        {
+            Decoder d;
+            auto res = d.decode(f.first, f.second);
+            long long pc = -1, pb = -1;
+#ifdef ASAM_CMP_VERIF
+            pc = static_cast<long long>(d.verifPendingCount());
+            pb = static_cast<long long>(d.verifPendingBytes());
+#endif
+            transcript += "N " + std::to_string(res.size()) + " " + std::to_string(pc) + " " + std::to_string(pb) + "\n";
+            for (auto& p : res)
+                transcript += p ? obsPacket(*p) + "\n" : std::string("NULLPACKET\n");
+        }
+    }
+};
+static InitProbe g_initProbe;
+
 struct World
 {
     CStream out;
@@ -357,7 +386,9 @@ struct World
     std::map<long long, std::unique_ptr<Payload>> ob;
     std::map<long long, int> obKind;
     std::vector<Bytes> frames;
-    Status st;
+    Status stx[2];
+    int stCur = 0;
+#define st stx[stCur]
     std::vector<std::pair<std::shared_ptr<Packet>, std::string>> late;
 
     void feed(long long k, const Bytes& buf)
@@ -662,6 +693,33 @@ struct World
                     out << "F " << hex(f) << "\n";
             out << "Q " << frames.size() << " " << enc->getSequenceCounter() << "\n";
         }
+        else if (op == "ENCX")
+        {
+            // ENCX <max> <packet slots...>: an encode() call that leaves by exception (minimum frame size SIZE_MAX -> length_error)
+            DataContext ctx{static_cast<size_t>(-1), static_cast<size_t>(N(0))};
+            std::vector<Packet> v;
+            for (size_t i = 1; i < l.n.size(); ++i)
+                v.push_back(pk[l.n[i]]);
+            try
+            {
+                auto fr = enc->encode(v.begin(), v.end(), ctx);
+                out << "Q " << fr.size() << " " << enc->getSequenceCounter() << "\n";
+            }
+            catch (const std::exception&)
+            {
+                out << "X " << enc->getSequenceCounter() << "\n";
+            }
+        }
+        else if (op == "SCOPY")
+        {
+            // copy-construct a tracker from the selected one, then copy-assign it into the other slot (both special members)
+            Status tmp(stx[stCur]);
+            stx[1 - stCur] = tmp;
+        }
+        else if (op == "SOTHER")
+            stCur = 1 - stCur;
+        else if (op == "SINIT")
+            out << g_initProbe.transcript;
         else if (op == "DNEW")
             dec[N(0)] = std::make_unique<Decoder>();
         else if (op == "DFEED")
